@@ -759,7 +759,16 @@ impl Parser {
                 minus = true;
                 lexem = self.next_lexem();
             } else if s == "+" {
-                // nop
+                // a leading plus changes nothing: go on with what follows it
+                // (a number keeps the sign, `modified = +1` is tomorrow)
+                lexem = match self.next_lexem() {
+                    Some(Lexem::RawString(s))
+                        if !s.is_empty() && s.chars().all(|c| c.is_ascii_digit()) =>
+                    {
+                        Some(Lexem::RawString(format!("+{}", s)))
+                    }
+                    other => other,
+                };
             } else {
                 self.drop_lexem();
             }
